@@ -225,7 +225,10 @@ fn token_header(w: &World, p: Tok) -> Option<String> {
 
 pub async fn step_prov(w: &mut World, op: Tok, c: &mut Cur<'_>) -> Vec<Vec<Tok>> {
     let bad = vec![vec![-1]];
-    if w.grpc.is_none() {
+    // the databroker's own server (whose start also starts the 1 s housekeeping task) is needed by the operations that
+    // go over the wire; the in-process provider of operation 64 must NOT start it: its scenarios lose providers and
+    // count on housekeeping running only when the history says so
+    if w.grpc.is_none() && op != 64 {
         w.grpc = Some(Grpc::start(w.broker.clone()).await);
     }
     match op {
